@@ -381,34 +381,85 @@ def _is_angle_subs(d) -> bool:
         and a.targets[0].id == v.func.value.id
 
 
+NUMERIC_CONVERSIONS = {"complex", "float", "int", "abs", "round", "N", "evalf", "n", "is_zero", "isinf", "isnan", "isfinite", "isclose", "sqrt", "log", "exp", "Abs"}
+
+
+def _membership(v: ast.AST, param: str):
+    """set of dotted names the parameter is compared with by exact equality/membership, or None"""
+    if isinstance(v, ast.Compare) and len(v.ops) == 1 and isinstance(v.ops[0], ast.In) and isinstance(v.comparators[0], (ast.Tuple, ast.List, ast.Set)) \
+            and dotted(v.left) == param:
+        return {dotted(e) or norm(e) for e in v.comparators[0].elts}
+    if isinstance(v, ast.Compare) and len(v.ops) == 1 and isinstance(v.ops[0], (ast.Eq, ast.Is)) and dotted(v.left) == param:
+        return {dotted(v.comparators[0]) or norm(v.comparators[0])}
+    if isinstance(v, ast.BoolOp) and isinstance(v.op, ast.Or):
+        out = set()
+        for x in v.values:
+            m = _membership(x, param)
+            if m is None:
+                return None
+            out |= m
+        return out
+    return None
+
+
 def _k5(run: Run, w: World) -> None:
-    run.rule("K5", "is_any_dimension tests membership in exactly {0, +oo, -oo, NaN}")
+    run.rule("K5", "is_any_dimension tests exact membership in {0, +oo, -oo, NaN}: no numeric conversion or ordering comparison of the factor")
     f = Fn(w, MISC, "is_any_dimension")
     rets = f.cfg.returns()
     run.require(len(rets) >= 1 and len(f.params) == 1, "is_any_dimension shape changed")
+    p = f.params[0]
     want = {"S.Zero", "S.Infinity", "S.NegativeInfinity", "S.NaN"}
+    accepted: set = set()
+    undecided = []
     for r in rets:
-        run.ob("K5", "membership")
         v = r.ast.value
-        got = None
-        if isinstance(v, ast.Compare) and len(v.ops) == 1 and isinstance(v.ops[0], ast.In) and isinstance(v.comparators[0], (ast.Tuple, ast.List, ast.Set)) \
-                and dotted(v.left) == f.params[0]:
-            got = {dotted(e) or norm(e) for e in v.comparators[0].elts}
-        elif isinstance(v, ast.BoolOp) and isinstance(v.op, ast.Or):
-            got = set()
-            for x in v.values:
-                if isinstance(x, ast.Compare) and len(x.ops) == 1 and isinstance(x.ops[0], (ast.Eq, ast.Is)) and dotted(x.left) == f.params[0]:
-                    got.add(dotted(x.comparators[0]) or norm(x.comparators[0]))
-                else:
-                    got = None
-                    break
-        if got is None or len(rets) != 1:
-            raise AnalysisError(f"C04/K5: is_any_dimension has a shape the reader does not understand: {norm(v)}")
-        if got != want:
-            run.violate("K5", f"{f.qual}:set", f.mod, r.ast,
-                        f"any-dimension values are {sorted(got)}; exactly {sorted(want)} required "
-                        f"(extra: {sorted(got - want)}, missing: {sorted(want - got)})")
-    run.sample({"function": f.qual, "set": sorted(want)})
+        if isinstance(v, ast.Constant) and isinstance(v.value, bool):
+            conds = conditions_for(f.fn, r.ast) or []
+            if v.value is True:
+                # `if <membership>: return True`
+                for t, pol in conds:
+                    if isinstance(t, str):
+                        continue
+                    m = _membership(t, p)
+                    if m is not None and pol is True:
+                        accepted |= m
+                    elif m is None:
+                        undecided.append(t)
+            continue
+        m = _membership(v, p) if v is not None else None
+        if m is not None:
+            accepted |= m
+        else:
+            undecided.append(v)
+    run.ob("K5", "membership")
+    magnitude = []
+    for u in undecided:
+        sl = f.slice(rets[0], u) if u is not None else None
+        names = set()
+        for e in (sl.exprs if sl else []):
+            for x in ast.walk(e):
+                if isinstance(x, ast.Call):
+                    d = dotted(x.func) or (x.func.attr if isinstance(x.func, ast.Attribute) else "")
+                    if d.split(".")[-1] in NUMERIC_CONVERSIONS:
+                        names.add(d)
+                elif isinstance(x, ast.Compare) and any(isinstance(o, (ast.Lt, ast.LtE, ast.Gt, ast.GtE)) for o in x.ops):
+                    names.add("ordering comparison")
+        if names:
+            magnitude.append((u, sorted(names)))
+    if magnitude:
+        u, names = magnitude[0]
+        run.violate("K5", f"{f.qual}:magnitude-dependent", f.mod, u,
+                    f"is_any_dimension decides through {names} (`{norm(u, 70)}`): a numeric conversion/ordering of the scale factor makes 'matches any dimension' depend on the "
+                    f"magnitude (float under/overflow, thresholds), so quantities of a wrong dimension can pass the gate")
+    elif undecided:
+        raise AnalysisError(f"C04/K5: is_any_dimension has a shape the reader does not understand: {norm(undecided[0])}")
+    if accepted != want and not magnitude:
+        run.violate("K5", f"{f.qual}:set", f.mod, rets[0].ast,
+                    f"any-dimension values are {sorted(accepted)}; exactly {sorted(want)} required "
+                    f"(extra: {sorted(accepted - want)}, missing: {sorted(want - accepted)})")
+    elif accepted - want:
+        run.violate("K5", f"{f.qual}:set", f.mod, rets[0].ast, f"any-dimension values include {sorted(accepted - want)}")
+    run.sample({"function": f.qual, "set": sorted(accepted)})
 
 
 def _k6(run: Run, w: World) -> None:
